@@ -30,6 +30,7 @@ type Report struct {
 	Assumptions []string
 	Findings    []Finding
 	EngineErr   []string // problems of the machinery itself (never a VIOLATION)
+	EngineNote  []string // observations about the machinery that do not invalidate the run (printed, stored, exit status unchanged)
 }
 
 func (r *Report) Add(key, msg string, replay any) {
@@ -257,6 +258,10 @@ func Finish(c *Ctx, r *Report) int {
 	r.Coverage["known_findings_matched"] = len(knownKeys)
 	r.Coverage["known_finding_keys"] = knownKeys
 	r.Coverage["engine_errors"] = r.EngineErr
+	r.Coverage["engine_notes"] = r.EngineNote
+	for _, n := range r.EngineNote {
+		fmt.Fprintf(os.Stderr, "ENGINE-NOTE: %s\n", n)
+	}
 	r.Coverage["workers"] = c.Workers
 	r.Coverage["go"] = runtime.Version()
 	ev := evidence{PropertyID: c.Prop, Tier: c.Tier, Seed: c.Seed, Level: r.Level, Coverage: r.Coverage,
